@@ -3,7 +3,7 @@
    GENERATED translation (Gen/IsoGen.v) of the methods of pointisotherm.py / baseisotherm.py; they call the
    generated converters of C01. Property theorems only, each closed by `exact` + Print Assumptions. *)
 From Coq Require Import Reals Lra QArith ZArith String List Bool.
-From PG Require Import Lib.Num Lib.Py Gen.UnitsGen1 Units.AdsOracle Gen.UnitsGen2 Units.UnitsSpec
+From PG Require Import Lib.Num Lib.Py Gen.UnitsGen1 Units.AdsOracle Gen.UnitsGen2 Units.UnitsSpec Units.C01Theorems
   Iso.IsoState Gen.IsoGen Iso.IsoSpec Iso.ConvPressure Iso.ConvLoading Iso.ConvMaterial Iso.ConvMaterialFrac Iso.C02Theorems.
 Import ListNotations.
 Open Scope R_scope.
@@ -54,6 +54,11 @@ Theorem refused_loading_conversion_changes_nothing : forall (s : iso RNum) b u v
   outcome (convert_loading RNum s b u vb) = Some e -> state_after (convert_loading RNum s b u vb) = s.
 Proof. exact convert_loading_refusal_changes_nothing. Qed.
 Print Assumptions refused_loading_conversion_changes_nothing.
+(* repaired by "fix: convert_material in fraction/percent mode assigns the converted loading once" *)
+Theorem refused_material_conversion_changes_nothing : forall (s : iso RNum) b u vb e,
+  outcome (convert_material RNum s b u vb) = Some e -> state_after (convert_material RNum s b u vb) = s.
+Proof. exact convert_material_refusal_changes_nothing. Qed.
+Print Assumptions refused_material_conversion_changes_nothing.
 Theorem refused_temperature_conversion_changes_nothing : forall (s : iso RNum) u vb e,
   outcome (convert_temperature RNum s u vb) = Some e -> state_after (convert_temperature RNum s u vb) = s.
 Proof. exact convert_temperature_refusal_changes_nothing. Qed.
@@ -91,26 +96,19 @@ Theorem history_back_restores_partial : forall psat M rml rmg dens mm TK,
 Proof. exact history_back_restores. Qed.
 Print Assumptions history_back_restores_partial.
 
-(* deviations on the unchanged tree: the full statement (any call, incl. omitted units) is false of the faithful model *)
-Theorem omitted_unit_sets_label_to_None_refuted :
-  (exists s', convert_pressure RNum st0 (Some "absolute"%string) None false = SOk s' /\ pressure_unit s' = None /\ valid_labels s' = false)
-  /\ (exists s', convert_loading RNum st0 (Some "molar"%string) None false = SOk s' /\ loading_unit s' = None /\ valid_labels s' = false)
-  /\ (exists s', convert_material RNum st0 (Some "mass"%string) None false = SOk s' /\ material_unit s' = None /\ valid_labels s' = false).
-Proof. exact omitted_unit_corrupts_label_refuted. Qed.
-Print Assumptions omitted_unit_sets_label_to_None_refuted.
-Theorem temperature_alias_stored_as_label_refuted :
-  exists s', convert_temperature RNum st0 (Some "C"%string) false = SOk s' /\ temperature_unit s' = Some "C"%string /\ valid_labels s' = false.
-Proof. exact temperature_alias_label_refuted. Qed.
-Print Assumptions temperature_alias_stored_as_label_refuted.
-Theorem fraction_material_change_not_atomic_refuted :
-  exists e s', convert_material RNum st_frac (Some "volume"%string) (Some "cm3"%string) false = SErr e s'
-    /\ col_l s' <> col_l st_frac /\ material_basis s' = material_basis st_frac.
-Proof. exact material_then_loading_not_atomic_refuted. Qed.
-Print Assumptions fraction_material_change_not_atomic_refuted.
-Theorem fraction_material_unit_not_checked_refuted :
-  exists s', convert_material RNum st_frac (Some "mass"%string) (Some "bogus"%string) false = SOk s' /\ material_unit s' = Some "bogus"%string.
-Proof. exact fraction_material_unit_unchecked_refuted. Qed.
-Print Assumptions fraction_material_unit_not_checked_refuted.
+(* calls that omit the unit while keeping (or omitting) the mode / basis: a no-op for ALL states
+   (repaired in /repo by "fix: omitting the unit ..."; before the fix the unit label became None) *)
+Theorem omitted_unit_with_unchanged_basis_is_noop : forall (s : iso RNum) vb,
+  (forall m, m = None \/ m = pressure_mode s -> ostr_truthy (pressure_mode s) = true -> convert_pressure RNum s m None vb = SOk s)
+  /\ (forall b, b = None \/ b = loading_basis s -> ostr_truthy (loading_basis s) = true -> convert_loading RNum s b None vb = SOk s)
+  /\ (forall b, b = None \/ b = material_basis s -> ostr_truthy (material_basis s) = true -> convert_material RNum s b None vb = SOk s).
+Proof. exact omitted_unit_is_noop. Qed.
+Print Assumptions omitted_unit_with_unchanged_basis_is_noop.
+(* repaired by "fix: convert_temperature stores the normalised unit label" *)
+Theorem temperature_label_is_normalised : forall (s : iso RNum) u vb s',
+  is_celsius u = true -> convert_temperature RNum s (Some u) vb = SOk s' -> temperature_unit s' = Some "°C"%string.
+Proof. exact temperature_label_normalised. Qed.
+Print Assumptions temperature_label_is_normalised.
 
 Example history_hypotheses_satisfiable :
   0 < 101325 /\ 0 < 28 /\ 0 < 0.03 /\ 0 < 0.0002 /\ 0 < 2 /\ 0 < 60 /\ kelvin_of true 77 <> 0
